@@ -12,6 +12,7 @@ def S(**kw): return dict(type="string", **kw)
 def A(items, **kw): return dict(type="array", items=items, **kw)
 def O(props, required=(), **kw): return dict(type="object", properties=props, required=list(required), **kw)
 def REF(i): return dict(ref=i)
+def ONEOF(*vs): return dict(type="oneOf", oneOf=list(vs))
 def ALLOF(name, base_props, base_required, extra_required, extra_props=None, base_first=True):
     """allOf[$ref Base, {type: object, required: [...], properties: ...}]: semantic form = the merged object"""
     merged = dict(base_props); merged.update(extra_props or {})
@@ -53,6 +54,17 @@ SCHEMAS = [
     ALLOF("B23", {"id": I(), "name": S(maxLength=2), "note": S()}, [], ["id", "name"]),
     ALLOF("B24", {"id": I(minimum=1), "name": S()}, ["id"], ["name"], base_first=False),
     ALLOF("B25", {"id": I(), "k": I(maximum=9)}, ["id"], ["k", "x"], extra_props={"x": S(minLength=1)}),
+    # maps: a pure map, declared members plus typed additional members
+    O({}, additionalProperties=S(maxLength=2)),
+    O({"id": I(minimum=0)}, required=["id"], additionalProperties=I(maximum=50)),
+    O({}, additionalProperties=S(format="uint64")),
+    # string-formatted unsigned integers: required, optional/nullable (and as map values above)
+    O({"u": S(format="uint64"), "o": S(format="uint64", nullable=True)}, required=["u"]),
+    # sum types: by JSON type; objects told apart by members of their own (the first unique member of the second
+    # variant is optional), also as a member and inside an array
+    ONEOF(S(maxLength=2), I(minimum=0)),
+    ONEOF(O({"a": I()}, required=["a"]), O({"c": I(maximum=5), "b": S(), "d": dict(type="boolean")}, required=["b"])),
+    O({"u": ONEOF(O({"a": I()}, required=["a"]), O({"c": I(), "b": S()}, required=["b"])), "l": A(ONEOF(S(), I()), maxItems=2)}, required=[]),
 ]
 
 EXTRA_COMPONENTS = []
@@ -60,14 +72,27 @@ def yaml_schema(s, ind):
     pad = " " * ind
     L = []
     if "ref" in s:
-        return [pad + "$ref: '#/components/schemas/S%d'" % s["ref"]]
+        return [pad + "$ref: '#/components/schemas/Sc%02d'" % s["ref"]]
     if "yaml_allof" in s:
         name, base, second, base_first = s["yaml_allof"]
         EXTRA_COMPONENTS.append((name, base))
         branches = [[pad + "  - $ref: '#/components/schemas/%s'" % name], [pad + "  - " + yaml_schema(second, 0)[0]] + [pad + "    " + l for l in yaml_schema(second, 0)[1:]]]
         if not base_first: branches.reverse()
         return [pad + "allOf:"] + branches[0] + branches[1]
+    if "oneOf" in s:
+        L.append(pad + "oneOf:")
+        for v in s["oneOf"]:
+            sub = yaml_schema(v, 0)
+            L.append(pad + "  - " + sub[0])
+            L += [pad + "    " + l for l in sub[1:]]
+        return L
     for k, v in s.items():
+        if k == "additionalProperties" and isinstance(v, dict):
+            L.append(pad + "additionalProperties:")
+            L += yaml_schema(v, ind + 2)
+            continue
+        if k == "properties" and not v:
+            continue
         if k == "properties":
             L.append(pad + "properties:")
             for pn, ps in v.items():
@@ -87,7 +112,11 @@ def yaml_schema(s, ind):
 def go_schema(s):
     if "ref" in s:
         return "&zzSchema{Ref: %d}" % (s["ref"] + 1)
+    if "oneOf" in s:
+        return "&zzSchema{OneOf: []*zzSchema{%s}}" % ", ".join(go_schema(v) for v in s["oneOf"])
     f = ["Type: %s" % json.dumps(s["type"])]
+    if "format" in s: f.append("Format: %s" % json.dumps(s["format"]))
+    if isinstance(s.get("additionalProperties"), dict): f.append("Addl: %s" % go_schema(s["additionalProperties"]))
     if s.get("nullable"): f.append("Nullable: true")
     if "minimum" in s: f.append("Min: zzI64(%d)" % s["minimum"])
     if "maximum" in s: f.append("Max: zzI64(%d)" % s["maximum"])
@@ -112,11 +141,11 @@ def go_schema(s):
 L = ["openapi: 3.0.3", "info: {title: t, version: '1'}", "paths:"]
 for i in range(len(SCHEMAS)):
     L += ["  /s%d:" % i, "    post:", "      operationId: postS%d" % i,
-          "      requestBody: {required: true, content: {application/json: {schema: {$ref: '#/components/schemas/S%d'}}}}" % i,
-          "      responses: {'200': {description: ok, content: {application/json: {schema: {$ref: '#/components/schemas/S%d'}}}}}" % i]
+          "      requestBody: {required: true, content: {application/json: {schema: {$ref: '#/components/schemas/Sc%02d'}}}}" % i,
+          "      responses: {'200': {description: ok, content: {application/json: {schema: {$ref: '#/components/schemas/Sc%02d'}}}}}" % i]
 L += ["components:", "  schemas:"]
 for i, s in enumerate(SCHEMAS):
-    L.append("    S%d:" % i)
+    L.append("    Sc%02d:" % i)  # two-digit names: an enum constant of Sc03 (Sc031) cannot coincide with a schema name
     L += yaml_schema(s, 6)
 for name, base in EXTRA_COMPONENTS:
     L.append("    %s:" % name)
@@ -124,9 +153,9 @@ for name, base in EXTRA_COMPONENTS:
 spec = "\n".join(L) + "\n"
 data = ["package PKGNAME", "", "var zzSchemas = []*zzSchema{"] + ["\t%s," % go_schema(s) for s in SCHEMAS] + ["}", "", "func zzNew(i int) any {", "\tswitch i {"]
 for i in range(len(SCHEMAS)):
-    data += ["\tcase %d:" % i, "\t\treturn new(S%d)" % i]
+    data += ["\tcase %d:" % i, "\t\treturn new(Sc%02d)" % i]
 data += ["\t}", "\tpanic(\"bad schema index\")", "}"]
-nvar = 24 if tier == "quick" else 150
+nvar = (24 if mode == "accept" else 16) if tier == "quick" else (150 if mode == "accept" else 60)
 acc, rnd = [], []
 for i in range(len(SCHEMAS)):
     vs = list(range(12)) + [rng.randrange(0, 200000) for _ in range(nvar - 12)]
@@ -135,5 +164,5 @@ for i in range(len(SCHEMAS)):
         rnd.append([0, i, v])
 print(json.dumps({"packages": [{"name": "sm", "spec": spec, "extra_go": {"data.go": "\n".join(data) + "\n"}}],
                   "cases": {tier: ([{"entry": "HAccept", "args": acc}] if mode == "accept" else [{"entry": "HRound", "args": rnd}])},
-                  "bounds": {"schemas": "%d named schemas: integer bounds (inclusive/exclusive/negative), multipleOf, integer and string enums, string length, arrays (min/max/uniqueItems, nested item validation), objects (required/optional/nullable members, additionalProperties:false, nesting, 10 and 18 members so the required mask spans 2 and 3 bytes), three recursive schemas (member / array-item self reference, unfolded to depth 2) and three allOf schemas (a branch that only lists required members of the other, both orders, a branch with own properties)" % len(SCHEMAS),
+                  "bounds": {"schemas": "%d named schemas: integer bounds (inclusive/exclusive/negative), multipleOf, integer and string enums, string length, arrays (min/max/uniqueItems, nested item validation), objects (required/optional/nullable members, additionalProperties:false, nesting, 10 and 18 members so the required mask spans 2 and 3 bytes), three recursive schemas (member / array-item self reference, unfolded to depth 2) and three allOf schemas (a branch that only lists required members of the other, both orders, a branch with own properties), two map schemas (additionalProperties with a schema), string-formatted uint64 members (1-2 digits; every uint64 is C13's subject), and three sum types (by JSON type; objects told apart by their own members; as member and array item)" % len(SCHEMAS),
                              "instances": "%d schema-directed instance skeletons per schema (valid instances, dropped required member, wrong type, null, undeclared member; 0..3 array items; optional members present/absent/null) with symbolic leaves: every digit of 1-2 digit integers with optional sign, every printable-ASCII string byte (0..2 bytes plus a two-byte rune), every boolean" % nvar}}))
